@@ -426,6 +426,31 @@ pub fn div(lhs: &Value, rhs: &Value) -> Result<Value, Error> {
     do_it(lhs, rhs).ok_or_else(|| impossible_op("/", lhs, rhs))
 }
 
+/// Euclidean division of two floats that agrees with `%`.
+///
+/// `f64::div_euclid` rounds the quotient before it truncates it and can step
+/// over an integer that way: `1.0 / 0.1` rounds to `10.0` although `0.1` goes
+/// into `1.0` only 9 times (`1.0 % 0.1` is `0.09999999999999995`).  The
+/// remainder on the other hand is exact, so the quotient is derived from it.
+fn float_div_euclid(a: f64, b: f64) -> f64 {
+    let r = a % b;
+    if r.is_nan() {
+        // zero divisor or non-finite dividend: there is no remainder to agree with
+        return a.div_euclid(b);
+    }
+    // `a - r` is a multiple of `b` up to rounding
+    let q = ((a - r) / b).round();
+    if r < 0.0 {
+        if b > 0.0 {
+            q - 1.0
+        } else {
+            q + 1.0
+        }
+    } else {
+        q
+    }
+}
+
 pub fn int_div(lhs: &Value, rhs: &Value) -> Result<Value, Error> {
     match coerce(lhs, rhs, true) {
         Some(CoerceResult::I128(a, b)) => {
@@ -437,7 +462,7 @@ pub fn int_div(lhs: &Value, rhs: &Value) -> Result<Value, Error> {
                 Err(failed_op("//", lhs, rhs))
             }
         }
-        Some(CoerceResult::F64(a, b)) => Ok(a.div_euclid(b).into()),
+        Some(CoerceResult::F64(a, b)) => Ok(float_div_euclid(a, b).into()),
         _ => Err(impossible_op("//", lhs, rhs)),
     }
 }
